@@ -44,6 +44,7 @@ var roles = []params.ValidatorRole{0, params.RoleChancellor, params.RoleHouse, p
 
 type world struct {
 	st     *state.StateDB
+	other  *state.StateDB // the other side of the last Copy: the original the copy was taken from (or, after Swap, the copy)
 	accts  []*fixture.Key
 	vals   []*fixture.Key
 	aIdx   map[common.Address]int
@@ -290,7 +291,14 @@ func (w *world) apply(op *Op) (res map[string]interface{}) {
 			res["gv"] = gv
 		}
 	case "Copy":
+		w.other = st
 		w.st = st.Copy()
+	case "Swap":
+		if w.other == nil {
+			res["refused"] = true
+			break
+		}
+		w.st, w.other = w.other, w.st
 	case "ForUpdate": // the read the end-of-period code does (distributeRewards, slashingAndRecoveringYouV5)
 		fu := []int{}
 		for _, v := range st.GetValidatorsForUpdate() {
@@ -448,6 +456,19 @@ func run(env *drive.Env) error {
 					ev["panic"] = "projection: " + perr
 				} else {
 					ev["obs"] = o
+					if w.other != nil {
+						// both sides of a copy must keep matching their own records
+						main := w.st
+						w.st = w.other
+						oo, operr := w.project()
+						w.st = main
+						if operr != "" {
+							ev["panic"] = "projection of the other side: " + operr
+							delete(ev, "obs")
+						} else {
+							ev["oobs"] = oo
+						}
+					}
 				}
 			}
 			env.Emit(ev)
